@@ -1349,6 +1349,7 @@ def cov2cor(cov):
                 raise ValueError(
                     "diagonal cov[%d,%d]=%e is not positive" % (iy, iy, cyy)
                 )
-            cor[ix, iy] = cov[ix, iy] / sqrt(cxx * cyy)
+            # float(): the product of two narrow integers overflows
+            cor[ix, iy] = cov[ix, iy] / sqrt(float(cxx) * float(cyy))
 
     return cor
